@@ -374,6 +374,10 @@ class Folder:
                 return int(*args)
             if name == 'sorted':
                 return sorted(args[0], key=repr)
+            if name in ('max', 'min', 'sum', 'abs') and not kwargs and args and all(isinstance(x, (int, list, tuple, frozenset, range)) for x in args):
+                vals_ = args if len(args) > 1 else (list(args[0]) if not isinstance(args[0], int) else args)
+                if all(isinstance(x, int) and not isinstance(x, bool) for x in vals_) and (vals_ or name == 'sum'):
+                    return {'max': max, 'min': min, 'sum': sum}[name](vals_) if name != 'abs' else abs(args[0])
             # a module-level function of the repository that is one `return <expression>`: its value for constant arguments
             fi = getattr(m, 'functions', {}).get(name) if name not in (env or {}) else None
             if fi is not None and not fi.node.decorator_list:
@@ -400,6 +404,9 @@ class Folder:
     def _method(self, recv, name, args, kwargs):
         try:
             if isinstance(recv, str):
+                if name in ('isdigit', 'isalpha', 'isalnum', 'isupper', 'islower', 'isspace', 'isidentifier', 'startswith', 'endswith') \
+                        and all(isinstance(a, (str, tuple)) for a in args) and not kwargs:
+                    return getattr(recv, name)(*args)
                 if name in ('format', 'join', 'lower', 'upper', 'strip', 'replace', 'split', 'center', 'ljust'):
                     if name == 'join' and args and isinstance(args[0], frozenset):
                         args = [sorted(args[0], key=repr)]
